@@ -366,6 +366,29 @@ def rewrite_retain(lines, counts):
     return out
 
 
+_EXTREV = re.compile(r'^(\s*)(.+)\.extend\(\((.+?)\.\.(.+)\)\.rev\(\)\);$')
+
+
+def rewrite_std_calls(lines, counts):
+    """T5 (pattern form): `X.extend((A..B).rev());` -> `extend_rev_range(&mut X, A, B);` and `X.capacity()` -> `unused_capacity(&X)`:
+    calls of std functions that Verus has no specification for (iterator adapters, Vec::capacity) go through trusted wrappers
+    whose body is the original expression; A, B and X are taken from the current line."""
+    out = []
+    for txt, no in lines:
+        if not txt.lstrip().startswith('//'):
+            mo = _EXTREV.match(txt)
+            if mo:
+                counts.bump('T5_extend_rev_range')
+                txt = '%sextend_rev_range(&mut %s, %s, %s);' % (mo.group(1), mo.group(2).strip(), mo.group(3).strip(), mo.group(4).strip())
+            else:
+                t2 = re.sub(r'\b((?:self\.)?[A-Za-z_][\w.]*)\.capacity\(\)', lambda m: 'unused_capacity(&%s)' % m.group(1), txt)
+                if t2 != txt:
+                    counts.bump('T5_vec_capacity')
+                    txt = t2
+        out.append((txt, no))
+    return out
+
+
 _WCAP = re.compile(r'^(\s*)let mut (\w+) = Vec::with_capacity\((.+)\);$')
 
 
@@ -453,6 +476,7 @@ def transform(text, counts, select=None):
     lines = rewrite_retain(lines, counts)
     lines = normalise_loop_break(lines, counts)
     lines = rewrite_for_loops(lines, counts)
+    lines = rewrite_std_calls(lines, counts)
     lines = name_capacity_args(lines, counts)
     lines = widen_visibility(lines, counts)
     # `pub mod x;` / `mod x;` declarations: the module tree is spelled out by the overlay
